@@ -430,6 +430,20 @@ func checkSeq(c SeqCase) (in info, msg string) {
 	case "half":
 		cmpf = func(a, b int) int { return cmp.Compare(a>>1, b>>1) }
 		in.set(c12Half)
+	case "extreme": // the documentation only promises the sign to matter
+		cmpf = func(a, b int) int {
+			switch {
+			case a < b:
+				return math.MinInt
+			case a > b:
+				return math.MaxInt
+			}
+			return 0
+		}
+		in.set(c12Rev) // counted with the custom comparisons
+	case "diff":
+		cmpf = func(a, b int) int { return a - b }
+		in.set(c12Rev)
 	default:
 		cmpf = func(a, b int) int { return cmp.Compare(a, b) }
 		natural = true
